@@ -473,3 +473,195 @@ def vc_zero_tests(H):
         r = H.closure(Interp(ctx, source_name=REL), frb)(me)
         ctx.oblige('RationalPolynomial.__bool__ is the zero test of its numerator', same(r, Rec('call', Rec('attr', numer, '__bool__'), (), {})))
     H.run_paths(frb, '', body2)
+
+
+# =====================================================================================
+# Polynomial.__mul__ : sorted merge of the variable lists of two monomials, accumulation over all pairs
+# =====================================================================================
+class SVar(SInt):
+    """A variable name inside a monomial (a str in the real code), ordered like the names."""
+    __slots__ = ()
+
+    def kvc_isinstance(self, interp, cls):
+        classes = cls if isinstance(cls, tuple) else (cls,)
+        return any(c is str for c in classes)
+
+
+Val = z3.Function('VarValue', z3.IntSort(), z3.RealSort())           # value of a variable
+
+
+class MonoSeq:
+    """Monomial [c, v1, v2, ..] with explicit (sorted) variable list of unknown length."""
+
+    def __init__(self, ctx, tag, idx):
+        self.L = z3.Function(tag + '_monolen', z3.IntSort(), z3.IntSort())(idx)            # length incl. the coefficient
+        self.cf = z3.Function(tag + '_coef', z3.IntSort(), z3.RealSort())(idx)
+        self.vf = lambda t, f=z3.Function(tag + '_var', z3.IntSort(), z3.IntSort(), z3.IntSort()): f(idx, t)
+        self.suf = lambda t, f=z3.Function(tag + '_SufProd', z3.IntSort(), z3.IntSort(), z3.RealSort()): f(idx, t)   # prod of values of vars t..
+        ctx.assume(z3.And(self.L >= 1, self.cf != 0, self.suf(self.L) == 1))
+
+    def facts_at(self, t):
+        """sortedness and suffix-product unfolding at position t (instances of WF(monomial) and of the definition of Suf)"""
+        return z3.And(z3.Implies(z3.And(t >= 1, t + 1 < self.L), self.vf(t) <= self.vf(t + 1)),
+                      z3.Implies(z3.And(t >= 1, t < self.L), self.suf(t) == Val(self.vf(t)) * self.suf(t + 1)))
+
+    def kvc_len(self):
+        return SInt(self.L)
+
+    def kvc_getitem(self, interp, i):
+        if isinstance(i, int) and i == 0:
+            return SNum(self.cf)
+        i = sint(i)
+        interp.ctx.safety('IndexError', z3.And(i.t >= 0, i.t < self.L))
+        interp.ctx.assume(self.facts_at(i.t))
+        if isinstance(i, SInt) and not z3.is_int_value(z3.simplify(i.t)):
+            interp.ctx.safety('monomial position >= 1 is a variable', i.t >= 1)
+        return SVar(self.vf(i.t))
+
+    def den(self):
+        return self.cf * self.suf(1)
+
+
+class CList:
+    """The list C being built in Polynomial.__mul__: [coefficient, merged variables..]."""
+
+    def __init__(self, ctx, coef, prod, last, nonempty):
+        self.ctx, self.coef, self.prod, self.last, self.nonempty = ctx, coef, prod, last, nonempty
+
+    def append(self, v):
+        if not isinstance(v, SVar):
+            self.ctx.oblige('only variables are appended to the merged monomial', False, 'inv')
+            return
+        self.ctx.oblige('merged variable list stays sorted', z3.Implies(self.nonempty, self.last <= v.t), 'inv')
+        self.prod = self.prod * Val(v.t)
+        self.last, self.nonempty = v.t, z3.BoolVal(True)
+
+    def kvc_getitem(self, interp, i):
+        if i == 0:
+            return SNum(self.coef)
+        raise OutOfSubset('read of a merged variable')
+
+    def kvc_setitem(self, interp, i, v):
+        if i != 0 or not isinstance(v, SNum):
+            raise OutOfSubset('store into C other than its coefficient')
+        self.coef = v.t
+
+
+class PolyOperandM:
+    """Polynomial operand of __mul__: sequence of MonoSeq, with the prefix fold of its denotation."""
+
+    def __init__(self, ctx, name, cls):
+        self.name, self.cls, self.ctx = name, cls, ctx
+        self.n = SInt(z3.Int(name + '_len'))
+        ctx.assume(self.n.t >= 0)
+
+    def kvc_len(self):
+        return self.n
+
+    def mono(self, i):
+        return MonoSeq(self.ctx, self.name, i)
+
+    def kvc_getitem(self, interp, i):
+        i = sint(i)
+        interp.ctx.safety('IndexError', z3.And(i.t >= 0, i.t < self.n.t))
+        return MonoSeq(interp.ctx, self.name, i.t)
+
+    def kvc_eq(self, interp, other):
+        if isinstance(other, int) and other == 0:
+            return mkbool(self.n.t == 0)
+        raise OutOfSubset('comparison of an abstract polynomial')
+
+    def kvc_isinstance(self, interp, cls):
+        return cls is self.cls
+
+    def kvc_getattr(self, interp, name):
+        if name == '__class__':
+            return self.cls
+        raise OutOfSubset(f'polynomial.{name}')
+
+
+def vc_poly_mul(H):
+    fuc = H.fn(REL, 'Polynomial.__mul__')
+
+    def body(ctx):
+        class Cls:
+            """Polynomial(...) as used inside __mul__: [] -> zero, [C] -> the single monomial C, a polynomial -> itself"""
+            def kvc_call(self, interp, arg):
+                if isinstance(arg, PolyVal):
+                    return arg
+                if isinstance(arg, list) and not arg:
+                    return PolyVal(z3.RealVal(0), tag='empty')
+                if isinstance(arg, list) and len(arg) == 1 and isinstance(arg[0], CList):
+                    c = arg[0]
+                    interp.ctx.oblige('the monomial handed to __add__ is well formed: non-zero coefficient', c.coef != 0, 'pre')
+                    return PolyVal(c.coef * c.prod)
+                raise OutOfSubset('Polynomial(...) form inside __mul__')
+        cls = Cls()
+        A, B = PolyOperandM(ctx, 'self', cls), PolyOperandM(ctx, 'other', cls)
+        Fold = z3.Function('PairProductFold', z3.IntSort(), z3.RealSort())      # sum over the pairs processed so far of Den(A_i) Den(B_j)
+        st = {}
+
+        def est_outer(interp, env, it):
+            res = env.lookup('res')
+            ok = isinstance(res, PolyVal)
+            ctx.oblige('outer inv-init: res is the zero polynomial', z3.BoolVal(False) if not ok else res.den == 0, 'inv')
+            ctx.assume(Fold(0) == 0)
+
+        def havoc_outer(interp, env, it, n, at_exit):
+            env.vars['res'] = PolyVal(Fold(n.t))
+            st['n'] = n
+
+        def preserve_outer(interp, env, it, n):
+            res = env.lookup('res')
+            ai, bi = it.get(n)
+            a, b = MonoSeq(ctx, 'self', sint(ai).t), MonoSeq(ctx, 'other', sint(bi).t)
+            ctx.oblige('outer inv-step: Den(res) == sum over the pairs so far of Den(self[ai]) * Den(other[bi])',
+                       z3.BoolVal(False) if not isinstance(res, PolyVal) else res.den == Fold(n.t) + a.den() * b.den(), 'inv')
+
+        def est_inner(interp, env, it):
+            C, i, j = env.lookup('C'), env.lookup('i'), env.lookup('j')
+            Am, Bm = env.lookup('A'), env.lookup('B')
+            ok = isinstance(C, list) and len(C) == 1 and isinstance(C[0], SNum) and i == 1 and j == 1 and isinstance(Am, MonoSeq) and isinstance(Bm, MonoSeq)
+            ctx.oblige('inner inv-init: C == [A[0] * B[0]], i == j == 1',
+                       z3.BoolVal(False) if not ok else C[0].t == Am.cf * Bm.cf, 'inv')
+            st['A'], st['B'] = Am, Bm
+
+        def inner_inv(Am, Bm, C, i, j):
+            return z3.And(i >= 1, i <= Am.L, j >= 1, j <= Bm.L, C.coef == Am.cf * Bm.cf,
+                          C.prod * Am.suf(i) * Bm.suf(j) == Am.suf(1) * Bm.suf(1),
+                          z3.Implies(z3.And(C.nonempty, i < Am.L), C.last <= Am.vf(i)),
+                          z3.Implies(z3.And(C.nonempty, j < Bm.L), C.last <= Bm.vf(j)))
+
+        def havoc_inner(interp, env, it, n, at_exit):
+            Am, Bm = st['A'], st['B']
+            i, j = SInt(z3.Int('i')), SInt(z3.Int('j'))
+            C = CList(ctx, z3.Real('C_coef'), z3.Real('C_prod'), z3.Int('C_last'), z3.Bool('C_nonempty'))
+            ctx.assume(inner_inv(Am, Bm, C, i.t, j.t))
+            env.vars['i'], env.vars['j'], env.vars['C'] = i, j, C
+            st['C'] = C
+
+        def preserve_inner(interp, env, it, n):
+            Am, Bm = st['A'], st['B']
+            C, i, j = env.lookup('C'), env.lookup('i'), env.lookup('j')
+            if C is not st['C'] or not isinstance(i, SInt) or not isinstance(j, SInt):
+                ctx.oblige('inner inv: loop variables keep their shape', False, 'inv')
+                return
+            hyp = z3.And(Am.facts_at(i.t - 1), Bm.facts_at(j.t - 1), Am.facts_at(i.t), Bm.facts_at(j.t))
+            ctx.oblige('inner inv-step: merged product * remaining factors == product of all factors; C sorted and below both heads',
+                       z3.Implies(hyp, inner_inv(Am, Bm, C, i.t, j.t)), 'inv')
+            ctx.oblige('inner progress', z3.Int('i') + z3.Int('j') < i.t + j.t, 'inv')
+        outer = LoopSpec(est_outer, havoc_outer, preserve_outer)
+        inner = LoopSpec(est_inner, havoc_inner, preserve_inner)
+        interp = Interp(ctx, loop_specs={('__mul__', 0): outer, ('__mul__', 1): inner}, source_name=REL)
+        import itertools as _it
+        r = H.closure(interp, fuc, {'Polynomial': cls, 'itertools': _it})(A, B)
+        if isinstance(r, PolyVal) and r.tag == 'empty':
+            ctx.oblige('post: a zero operand gives the zero polynomial', z3.Or(A.n.t == 0, B.n.t == 0))
+            return r
+        ok = isinstance(r, PolyVal) and 'n' in st
+        ctx.oblige('post: returns the accumulated polynomial', bool(ok))
+        if ok:
+            ctx.oblige('post: Den(result) == sum over all pairs of Den(self[i]) * Den(other[j])  (== Den(self) * Den(other) by distributivity)',
+                       r.den == Fold(st['n'].t))
+        return r
+    H.run_paths(fuc, 'well-formed operands', body)
